@@ -404,6 +404,10 @@ def hist_oracle(cases):
                             # the sender holds its own announcing message from the moment it created it
                             fail(c, k, "media-sender-cannot-decrypt", f"the member that encrypted and announced the file cannot decrypt it (no epoch hint found for its own stored announcing message): {res[:160]}")
                         st["announcement_not_processed"] += 1
+                        # "regardless of when the announcing message was processed": while the client still sits in the encrypting
+                        # epoch the current epoch's key opens the file whatever hint (none, or another message's) is found first
+                        if not ok and f in enc_epoch and kv.get("epoch", "-") != "-" and int(kv["epoch"]) == enc_epoch[f]:
+                            fail(c, k, "media-current-epoch-decrypt-failed", f"a member sitting in the encrypting epoch ({enc_epoch[f]}) cannot decrypt a file whose announcement it has not processed yet: {res[:160]}")
                         continue
                     tag = processed[(int(t[1]), f)]
                     dist = (int(kv["epoch"]) - enc_epoch[f]) if kv.get("epoch", "-") != "-" and f in enc_epoch else -1
